@@ -185,7 +185,21 @@ func c14StreamTraces(c *Ctx) {
 	for i := 0; i < ntr; i++ {
 		tr := crcTrace{ID: i + 1}
 		h := dyncrc16.New()
-		n := 1 + rng.Intn(12)
+		n := 2 + rng.Intn(12)
+		if i < 3 {
+			// one write longer than any 16-bit length, on a non-zero state
+			h.Write([]byte{1, 2, 3})
+			tr.Ops = append(tr.Ops, crcOp{Op: "write", Data: []int{1, 2, 3}, N: 3})
+			d := make([]byte, []int{65535, 65536, 70001}[i])
+			rng.Read(d)
+			wn, _ := h.Write(d)
+			tr.Ops = append(tr.Ops, crcOp{Op: "write", Data: toInts(d), N: wn}, crcOp{Op: "sum16", V: int(h.Sum16())})
+		}
+		if i == 3 {
+			d := make([]byte, 66770)
+			rng.Read(d)
+			tr.Ops = append(tr.Ops, crcOp{Op: "checksum", Data: toInts(d), V: int(dyncrc16.Checksum(d))})
+		}
 		for j := 0; j < n; j++ {
 			switch x := rng.Intn(10); {
 			case x < 5:
@@ -193,6 +207,7 @@ func c14StreamTraces(c *Ctx) {
 				if rng.Intn(8) == 0 {
 					l = 40 + rng.Intn(200)
 				}
+
 				d := make([]byte, l)
 				switch rng.Intn(3) {
 				case 0:
